@@ -125,7 +125,18 @@ HARNESSES = [
                     'rebasing histories are covered by C02 (sro of the rebased graph == fresh graph)',
             oracle="structural predicates + CPython's type.mro() on a mirrored class hierarchy (TypeError <=> no C3) + "
                    'an independent DFS-keep-last statement of the legacy order'),
+    Harness('e_mixed_specs', None, kind='E', impls=('py',),
+            tiers=dict(quick=dict(budget_s=100, parts=16, params=dict(L=1, maxb=3)),
+                       thorough=dict(budget_s=1500, parts=16, params=dict(L=2, maxb=3))),
+            encoded=_ENC,
+            bounds='the mixed specification graph of C02 (interfaces, class declarations rooted in implementedBy(object), an instance declaration, '
+                   'plain declarations): every assignment (thorough: every pair of assignments) of an ordered base list of <=3 members, '
+                   'consistent or not; every __sro__ must start with the specification, list each ancestor once, put every specification '
+                   'before all of its bases and end with Interface (a second root such as implementedBy(object) must not displace it)',
+            outside='as C02.e_rebase_wide', oracle='the structural predicates of the statement over the harness\'s mirror of the current __bases__'),
 ]
+from props import C02 as _C02   # noqa: E402
+HARNESSES[-1].make = _C02.make_e
 
 MANIFEST = {
     'engine': 'symx',
